@@ -1077,6 +1077,89 @@ theorem C09_fn_sign_counterparty_htlc_sweep_bad_input (v : SimpleValidator) (d :
   have hl : ins.length ≤ input := by rw [hins.1]; exact hi
   simp [hl, signCounterpartyHtlcSweep, hi]
 
+/-! ### the second-level HTLC transaction entry points `sign_htlc_tx`, `sign_holder_htlc_tx`, `sign_counterparty_htlc_tx`
+
+`sign_htlc_tx` signs **only after** `decode_and_validate_htlc_tx` and then `validate_htlc_tx` (same validator, the decoded
+HTLC and fee rate handed from the first to the second) accepted; the signature is over the *recomposed* sighash the decoder
+returned (not over the submitted transaction), with the HTLC base key tweaked by the per-commitment point, and carries the
+sighash type the decoder chose.  The holder variant validates with `is_counterparty = false` and the holder's tx keys at the
+supplied point (or at `get_per_commitment_point(commitment_number)`), the counterparty variant with `true` and the
+counterparty's tx keys.  Together with `C09_fn_decode_and_validate_htlc_tx` and `C09_fn_validate_htlc_tx` (the regenerated
+`SimpleValidator` methods = `Sweep.signHtlcTx` / `validateHtlcTx`) this is clause 6/7 from the handler's entry to the signature. -/
+
+variable {TK H SH ET : Type}
+
+theorem C09_fn_sign_htlc_tx_spec (val : Val) (cs : CS)
+    (Dec : Val → Bool → CSetup → TK → CTx I → Scr → Nat → Scr → Rs.M (Nat × H × SH × ET))
+    (Vh : Val → CSetup → CS → Bool → H → Nat → Rs.M Unit)
+    (D : Secp → PK → SK → SK) (M : SH → Msg) (G : Secp → Msg → SK → Sig)
+    (ch : Channel Secp SK) (tx : CTx I) (point : PK) (rs : Scr) (amount : Nat) (ws : Scr) (isCp : Bool) (txkeys : TK) :
+    Channel.sign_htlc_tx (ext_self_validator := val) (ext_Validator_decode_and_validate_htlc_tx := Dec)
+        (ext_self_get_chain_state := cs) (ext_Validator_validate_htlc_tx := Vh) (ext_derive_private_key := D)
+        (ext_message_of_sighash := M) (ext_secp_ctx_sign_ecdsa := G) ch tx point rs amount ws isCp txkeys
+      = (Dec val isCp ch.setup txkeys tx rs amount ws >>= fun t =>
+          Vh val ch.setup cs isCp t.2.1 t.1 >>= fun _ =>
+            pure { sig := G ch.secp_ctx (M t.2.2.1) (D ch.secp_ctx point ch.keys.htlc_base_key), typ := t.2.2.2 }) := by
+  unfold Channel.sign_htlc_tx
+  congr 1
+
+theorem C09_fn_sign_holder_htlc_tx_spec (pcpF : Nat → Rs.M PK) (HK : PK → TK) (val : Val) (cs : CS)
+    (Dec : Val → Bool → CSetup → TK → CTx I → Scr → Nat → Scr → Rs.M (Nat × H × SH × ET))
+    (Vh : Val → CSetup → CS → Bool → H → Nat → Rs.M Unit)
+    (D : Secp → PK → SK → SK) (M : SH → Msg) (G : Secp → Msg → SK → Sig)
+    (ch : Channel Secp SK) (tx : CTx I) (n : Nat) (opt : Option PK) (rs : Scr) (amount : Nat) (ws : Scr) :
+    Channel.sign_holder_htlc_tx (ext_self_get_per_commitment_point := pcpF) (ext_self_make_holder_tx_keys := HK)
+        (ext_self_validator := val) (ext_Validator_decode_and_validate_htlc_tx := Dec)
+        (ext_self_get_chain_state := cs) (ext_Validator_validate_htlc_tx := Vh) (ext_derive_private_key := D)
+        (ext_message_of_sighash := M) (ext_secp_ctx_sign_ecdsa := G) ch tx n opt rs amount ws
+      = ((match opt with | some p => pure p | none => pcpF n) >>= fun point =>
+          Channel.sign_htlc_tx (ext_self_validator := val) (ext_Validator_decode_and_validate_htlc_tx := Dec)
+            (ext_self_get_chain_state := cs) (ext_Validator_validate_htlc_tx := Vh) (ext_derive_private_key := D)
+            (ext_message_of_sighash := M) (ext_secp_ctx_sign_ecdsa := G) ch tx point rs amount ws false (HK point)) := by
+  unfold Channel.sign_holder_htlc_tx
+  cases opt with
+  | none => cases h : pcpF n <;> simp [h, bind, Except.bind, pure, Except.pure]
+  | some p => simp [Rs.unwrap, bind, Except.bind, pure, Except.pure]
+
+theorem C09_fn_sign_counterparty_htlc_tx_spec (CK : PK → TK) (val : Val) (cs : CS)
+    (Dec : Val → Bool → CSetup → TK → CTx I → Scr → Nat → Scr → Rs.M (Nat × H × SH × ET))
+    (Vh : Val → CSetup → CS → Bool → H → Nat → Rs.M Unit)
+    (D : Secp → PK → SK → SK) (M : SH → Msg) (G : Secp → Msg → SK → Sig)
+    (ch : Channel Secp SK) (tx : CTx I) (point : PK) (rs : Scr) (amount : Nat) (ws : Scr) :
+    Channel.sign_counterparty_htlc_tx (ext_self_make_counterparty_tx_keys := CK)
+        (ext_self_validator := val) (ext_Validator_decode_and_validate_htlc_tx := Dec)
+        (ext_self_get_chain_state := cs) (ext_Validator_validate_htlc_tx := Vh) (ext_derive_private_key := D)
+        (ext_message_of_sighash := M) (ext_secp_ctx_sign_ecdsa := G) ch tx point rs amount ws
+      = Channel.sign_htlc_tx (ext_self_validator := val) (ext_Validator_decode_and_validate_htlc_tx := Dec)
+          (ext_self_get_chain_state := cs) (ext_Validator_validate_htlc_tx := Vh) (ext_derive_private_key := D)
+          (ext_message_of_sighash := M) (ext_secp_ctx_sign_ecdsa := G) ch tx point rs amount ws true (CK point) := rfl
+
+/-- a signature leaves `sign_htlc_tx` only if both validator calls accepted, and then it is the signature over the
+    decoder's recomposed sighash with the tweaked HTLC base key, typed as the decoder said -/
+theorem C09_fn_sign_htlc_tx_signs (val : Val) (cs : CS)
+    (Dec : Val → Bool → CSetup → TK → CTx I → Scr → Nat → Scr → Rs.M (Nat × H × SH × ET))
+    (Vh : Val → CSetup → CS → Bool → H → Nat → Rs.M Unit)
+    (D : Secp → PK → SK → SK) (M : SH → Msg) (G : Secp → Msg → SK → Sig)
+    (ch : Channel Secp SK) (tx : CTx I) (point : PK) (rs : Scr) (amount : Nat) (ws : Scr) (isCp : Bool) (txkeys : TK)
+    (out : Gen.FnChannelSweep.TypedSignature Sig ET)
+    (h : Channel.sign_htlc_tx (ext_self_validator := val) (ext_Validator_decode_and_validate_htlc_tx := Dec)
+        (ext_self_get_chain_state := cs) (ext_Validator_validate_htlc_tx := Vh) (ext_derive_private_key := D)
+        (ext_message_of_sighash := M) (ext_secp_ctx_sign_ecdsa := G) ch tx point rs amount ws isCp txkeys = .ok out) :
+    ∃ fr htlc sh ty, Dec val isCp ch.setup txkeys tx rs amount ws = .ok (fr, htlc, sh, ty)
+      ∧ Vh val ch.setup cs isCp htlc fr = .ok ()
+      ∧ out = { sig := G ch.secp_ctx (M sh) (D ch.secp_ctx point ch.keys.htlc_base_key), typ := ty } := by
+  rw [C09_fn_sign_htlc_tx_spec] at h
+  cases hd : Dec val isCp ch.setup txkeys tx rs amount ws with
+  | error e => simp [hd, bind, Except.bind] at h
+  | ok t =>
+    obtain ⟨fr, htlc, sh, ty⟩ := t
+    simp only [hd, Rs.bind_ok] at h
+    cases hv : Vh val ch.setup cs isCp htlc fr with
+    | error e => simp [hv, bind, Except.bind] at h
+    | ok u =>
+      simp only [hv, Rs.bind_ok, Rs.pure_eq, Except.ok.injEq] at h
+      exact ⟨fr, htlc, sh, ty, rfl, by cases u; exact hv, h.symm⟩
+
 end ChannelSweep
 
 end VlsModel.Props.C09Fn
